@@ -32,3 +32,17 @@ package common
 // from a successful parse or fail): assumed of every non-nil *URL / *SecretURL read from the heap.
 //@ typeinv URL :: self.URL != nil
 //@ typeinv SecretURL :: self.URL != nil
+
+// ---- C03 / C17: an inhibition rule is taken as written: after decoding, the method only *checks* label names - it
+// rewrites, drops or adds nothing (an empty-valued entry of the deprecated match maps stays an entry: it narrows the
+// rule to alerts without that label). The decoder's own writes into the rule are outside this frame (assumed).
+//@ func (*InhibitRule).UnmarshalYAML
+//@   props C03 C17
+//@   nosafe
+//@   after call fmt.Errorf assume res0 != nil
+//@   ensures [decoder-error-is-reported] called("dynamic:param:unmarshal") && (ret("dynamic:param:unmarshal") != nil ==> result == ret("dynamic:param:unmarshal"))
+//@   loop 1 invariant count("dynamic:param:unmarshal") == 1
+//@   loop 2 invariant count("dynamic:param:unmarshal") == 1
+//@   loop 3 invariant count("dynamic:param:unmarshal") == 1
+//@   noeffect dynamic:param:unmarshal
+//@   assigns nothing
